@@ -18,8 +18,11 @@
     [influxql.Expr] conversion ([reads.NodeToExpr]), [influxql.Reduce], the TSI index's
     evaluation of the tag condition (modelled as direct evaluation on the series), the TSM
     engine's per-shard cursors (modelled as the stored, time-sorted points of the series
-    field restricted to the request window), batching of array cursors, aggregates, field
-    value predicates, regular expressions, field-type conflicts between shards.
+    field restricted to the request window), batching of array cursors, aggregates,
+    regular expressions, field-type conflicts between shards.  Field-value comparisons
+    ([$ op integer literal]) ARE modelled: the per-row [ValueCond] as [influxql.Reduce] computes
+    it, the [*ArrayFilterCursor], and the [filter] field of the shared per-type
+    [*MultiShardArrayCursor] objects that survives from one series to the next ([fstate]).
 
     No proofs in this file. *)
 From Coq Require Import String Ascii.
@@ -264,6 +267,8 @@ Definition fstate := list (N * vexp).
 Fixpoint st_get (st : fstate) (ty : N) : option vexp :=
   match st with [] => None | (t, e) :: r => if N.eqb t ty then Some e else st_get r ty end.
 Definition st_set (st : fstate) (ty : N) (e : vexp) : fstate := (ty, e) :: st.
+Definition st_clear (st : fstate) (ty : N) : fstate :=
+  filter (fun x => negb (N.eqb (fst x) ty)) st.
 
 (** [arrayCursorIterator.Next] returns a nil cursor iff the measurement has no such field in
     the shard; [createCursor] skips those shards. *)
@@ -276,14 +281,15 @@ Fixpoint skip_nil (shs : list shard) (s : series) (f : string) : list shard :=
   end.
 (** [createCursor] + [reset(cur, itrs, cond)] + [Next]/[nextArrayCursor]:
     reset with a non-nil [cond] (re)arms the filter and wraps the first cursor in it; reset
-    with a nil [cond] installs the first cursor unwrapped and LEAVES [filter] AS IT IS;
+    with a nil [cond] installs the first cursor unwrapped and sets [filter] to nil (since fix
+    e5cbc6eccf; before it the filter of an earlier series was left in place);
     [nextArrayCursor] wraps every following shard's cursor in [filter] whenever it is non-nil. *)
 Definition multi_cursor_v (st : fstate) (ty : N) (cond : option vexp) (shs : list shard)
            (lo hi : Z) (s : series) (f : string) : list point * fstate :=
   match skip_nil shs s f with
   | [] => ([], st)
   | sh :: rest =>
-      let st' := match cond with Some e => st_set st ty e | None => st end in
+      let st' := match cond with Some e => st_set st ty e | None => st_clear st ty end in
       let later := st_get st' ty in
       (vfilter cond (shard_cursor lo hi s f sh)
          ++ flat_map (fun sh' => vfilter later (shard_cursor lo hi s f sh')) rest, st')
